@@ -150,7 +150,7 @@ int main(int argc, char** argv)
 
         std::string domain_name = "";
         if (cmd.num_args(opt_parms)==5) {
-            domain_name = opt_parms[6];
+            domain_name = opt_parms[5];
             std::cout << "Dipoles are considered to be in \"" << domain_name << "\" domain." << std::endl;
         }
 
